@@ -26,6 +26,8 @@ const (
 	OpDownloadAll   = "updater.DownloadUpdates"
 	OpUnpackArchive = "updater.UnpackArchive"
 	OpFileUnpack    = "updater.File.Unpack"
+	// OpUpdateIndexes is outside the statement's list (observation only).
+	OpUpdateIndexes = "updater.UpdateIndexes"
 )
 
 // Spec describes the ONE write operation a writer process performs.
@@ -181,4 +183,15 @@ func RecordBytes(key string, data []byte) []byte {
 		panic(err)
 	}
 	return b
+}
+
+// MakeContentLen is len(MakeContent(seed, size)).
+func MakeContentLen(size int) int {
+	if size == 0 {
+		return 0
+	}
+	if size < HeaderLen {
+		return HeaderLen
+	}
+	return size
 }
